@@ -260,6 +260,9 @@ def gen(seed, tier, scale):
     rngs = [case_rng(seed, ID, 700000 + i) for i in range(nw)]
     for i, c in enumerate(cli.pmap(srccases.words_case, rngs)):
         yield 700000 + i, c
+    rngs = [case_rng(seed, ID, 750000 + i) for i in range(nw)]
+    for i, c in enumerate(cli.pmap(srccases.dest_words_case, rngs)):
+        yield 750000 + i, c
     idx = 100000
     for _ in range((300 if tier == "quick" else 5000) * scale):
         rng = case_rng(seed, ID, idx)
